@@ -225,6 +225,81 @@ def run(rep: Report, tier: str) -> None:
             rep.add(Finding("R14.3", "R14.3/scalar-writer", ss.module.rel, ss.node.lineno, ss.qualname,
                             f"_scalars.csv rows written for the scalars {vals}: (written, expected) differs for {bad}: every returned scalar gets one row holding its value as text; "
                             f"only a null scalar is an empty field (0, 0.0, false and the empty string are values)"))
+    # ---- R14.4 the output folder reaches every result fetch unchanged ----
+    rep.rule("R14.4", "inside the execution modules the output folder is threaded unchanged: a function that has an `output_folder` parameter passes that parameter itself "
+                      "(no condition, no None) to every callee that takes one - whether a returned dataset is written does not depend on which statement produced it")
+    n4 = 0
+    for f in P.iter_functions():
+        if not f.qualname.startswith("vtlengine.duckdb_transpiler.io.") or "output_folder" not in f.params:
+            continue
+        cond_stores = [n for n in walk_no_nested(f.node) if isinstance(n, ast.Name) and n.id == "output_folder" and isinstance(n.ctx, ast.Store)]
+        for c in walk_no_nested(f.node):
+            if not isinstance(c, ast.Call):
+                continue
+            for t in P.resolve_call(f, c):
+                try:
+                    callee = P.func(t)
+                except KeyError:
+                    continue
+                if "output_folder" not in callee.params:
+                    continue
+                arg = next((k.value for k in c.keywords if k.arg == "output_folder"), None)
+                if arg is None:
+                    cps = [x for x in callee.params if x not in ("self", "cls")]
+                    i = cps.index("output_folder")
+                    arg = c.args[i] if i < len(c.args) and not any(isinstance(a, ast.Starred) for a in c.args) else None
+                n4 += 1
+                rep.instance("R14.4", f"{f.qualname}->{callee.name}@{src(arg) if arg is not None else '<default>'}", nontrivial=True, sample={"caller": f.qualname, "callee": callee.qualname, "argument": src(arg) if arg is not None else None})
+                ok = isinstance(arg, ast.Name) and arg.id == "output_folder" and not cond_stores
+                if not ok:
+                    rep.add(Finding("R14.4", f"R14.4/{f.qualname}->{callee.name}", f.module.rel, c.lineno, f.qualname,
+                                    f"{callee.name}() is given output_folder={src(arg) if arg is not None else '<its default>'}"
+                                    f"{' (output_folder is re-assigned in this function)' if cond_stores and isinstance(arg, ast.Name) else ''}, not the folder run() was called with: "
+                                    f"a returned dataset for which the folder is withheld is handed back with in-memory data and no file is written for it"))
+    rep.floor("R14.4 output-folder hand-overs", n4, 3)
+    # ---- R14.5 the structures run() loads carry no data ----
+    rep.rule("R14.5", "the loader run() takes its input structures from attaches no data to them (no `.data` store, every Dataset(...) built with data=None, in everything reachable "
+                      "from it): a statement that returns an input dataset as it is would otherwise carry that frame next to the file written for it")
+    from sa.callgraph import callgraph as _cg14
+    frun = P.func("vtlengine.API.run")
+    loaders: List[str] = []
+    for st in walk_no_nested(frun.node):
+        if isinstance(st, ast.Assign) and isinstance(st.value, ast.Call) and isinstance(st.targets[0], ast.Tuple) and st.targets[0].elts and isinstance(st.targets[0].elts[0], ast.Name):
+            first = st.targets[0].elts[0].id
+            feeds = any(isinstance(c, ast.Call) and _callee_name(c) in ("InterpreterAnalyzer", "SQLTranspiler")
+                        and any(isinstance(x, ast.Name) and x.id == first for k in c.keywords + [ast.keyword(arg=None, value=a) for a in c.args] for x in ast.walk(k.value))
+                        for c in walk_no_nested(frun.node))
+            if feeds:
+                loaders += P.resolve_call(frun, st.value)
+    if not loaders:
+        raise AnalysisError("run(): the call that loads the input structures handed to the interpreter / transpiler not found (anchor changed)")
+    reach = _cg14(P).reachable_from(loaders)
+    n5 = 0
+    for q in sorted(reach):
+        try:
+            f5 = P.func(q)
+        except KeyError:
+            continue
+        if not q.startswith("vtlengine."):
+            continue
+        n5 += 1
+        for n in walk_no_nested(f5.node):
+            what = None
+            if isinstance(n, (ast.Assign, ast.AnnAssign, ast.AugAssign)):
+                for t in (n.targets if isinstance(n, ast.Assign) else [n.target]):
+                    if isinstance(t, ast.Attribute) and t.attr == "data" and not (isinstance(n.value, ast.Constant) and n.value.value is None):
+                        what = f"`{src(n)[:80]}` attaches data"
+            if isinstance(n, ast.Call) and _callee_name(n) == "Dataset":
+                d = next((k.value for k in n.keywords if k.arg == "data"), n.args[2] if len(n.args) > 2 else None)
+                rep.instance("R14.5", f"ctor/{q}", nontrivial=True, sample={"in": q, "data": src(d) if d is not None else None})
+                if d is not None and not (isinstance(d, ast.Constant) and d.value is None):
+                    what = f"`{src(n)[:80]}` builds the dataset with data"
+            if what:
+                rep.add(Finding("R14.5", f"R14.5/{q}", f5.module.rel, n.lineno, q,
+                                f"{what} on the path run() loads its input STRUCTURES through ({' / '.join(x.split('.')[-1] for x in loaders)}): `DS_r <- DS_1;` with an output folder returns "
+                                f"DS_r carrying that frame (the interpreter copies the input dataset shallowly) next to the file holding the real datapoints"))
+    rep.instance("R14.5", "reachable-from-loader", sample={"loader": loaders, "functions": n5})
+    rep.floor("R14.5 functions reachable from the structure loader", n5, 5)
     rep.analysed = {"fetch_result_nodes": len(g.nodes)}
     rep.assumptions = ["DuckDB COPY (query) TO file writes exactly the rows/columns of the query",
                        "Dataset objects coming from semantic analysis carry data=None"]
